@@ -7,5 +7,5 @@ NOTES = "See DESIGN.md. All verdicts are bounded (unwinding assertions on); boun
 NOT_APPLICABLE = {}
 
 # properties whose checks are registered in MANIFEST.json (quick tier passes on the unchanged tree, calibrated with margin)
-CLAIMED = ["C02", "C03", "C04", "C05", "C06", "C07", "C08", "C09", "C10", "C11", "C12", "C13", "C14", "C15", "C16", "C17", "C18", "C19", "C20"]
+CLAIMED = ["C01", "C02", "C03", "C04", "C05", "C06", "C07", "C08", "C09", "C10", "C11", "C12", "C13", "C14", "C15", "C16", "C17", "C18", "C19", "C20"]
 UNDER_CONSTRUCTION = "solver-based check under construction in this session (harnesses not yet calibrated); not claimed until its quick tier passes reliably"
